@@ -7,6 +7,12 @@ Theorem nothing_bottom : forall w f t, is_subtype w (S f) TNothing t = Rt.
 Proof. exact nothing_bottom_lem. Qed.
 Print Assumptions nothing_bottom.
 
+Theorem builtin_bottom : forall w f b pr t,
+  is_bottom_builtin w b = true -> is_subtype w (S f) (TBuiltin b pr) t = Rt.
+Proof. exact builtin_bottom_lem. Qed.
+Print Assumptions builtin_bottom.
+
+(* the reference checker is sound for both definite answers *)
 Theorem sub_ref_yes_sound : forall w fuel p s t, sub_ref w fuel p s t = Yes -> SubA w p s t.
 Proof. exact sub_ref_yes_sound_lem. Qed.
 Print Assumptions sub_ref_yes_sound.
@@ -14,3 +20,90 @@ Print Assumptions sub_ref_yes_sound.
 Theorem sub_ref_no_sound : forall w fuel p s t, sub_ref w fuel p s t = No -> ~ SubA w p s t.
 Proof. exact sub_ref_no_sound_lem. Qed.
 Print Assumptions sub_ref_no_sound.
+
+(* projection-free, variable-free fragment: a True answer is justified *)
+Theorem is_subtype_sound_pf : forall w fuel p s t,
+  table_ok w = true -> plain_closed s = true -> plain_closed t = true ->
+  arity_ok w s = true -> arity_ok w t = true ->
+  is_subtype w fuel s t = Rt -> SubA w p s t.
+Proof. exact is_subtype_sound_pf_lem. Qed.
+Print Assumptions is_subtype_sound_pf.
+
+(* ... and a False answer is exact, for types without primitive built-ins *)
+Theorem is_subtype_complete_pf_partial : forall w fuel p s t,
+  table_ok w = true -> plain_closed s = true -> plain_closed t = true ->
+  arity_ok w s = true -> arity_ok w t = true -> boxed s = true -> boxed t = true ->
+  is_subtype w fuel s t = Rf -> ~ SubA w p s t.
+Proof. exact is_subtype_complete_pf_lem. Qed.
+Print Assumptions is_subtype_complete_pf_partial.
+
+(* without boxed s the statement is false even under the full table_ok *)
+Theorem is_subtype_complete_pf_refuted :
+  exists w fuel p s t,
+    table_ok w = true /\ plain_closed s = true /\ plain_closed t = true /\
+    arity_ok w s = true /\ arity_ok w t = true /\
+    is_subtype w fuel s t = Rf /\ SubA w p s t.
+Proof. exact complete_pf_refuted_prim_arg_lem. Qed.
+Print Assumptions is_subtype_complete_pf_refuted.
+
+(* why table_ok has its last three conjuncts (table_ok_weak = table_ok without them) *)
+Theorem is_subtype_sound_pf_refuted_var_super :
+  exists w fuel p s t,
+    table_ok_weak w = true /\ no_bottom_supers w = true /\ boxed_table w = true /\
+    plain_closed s = true /\ plain_closed t = true /\
+    arity_ok w s = true /\ arity_ok w t = true /\ boxed s = true /\ boxed t = true /\
+    is_subtype w fuel s t = Rt /\ ~ SubA w p s t.
+Proof. exact sound_pf_refuted_var_super_lem. Qed.
+Print Assumptions is_subtype_sound_pf_refuted_var_super.
+
+Theorem is_subtype_complete_pf_refuted_bottom_super :
+  exists w fuel p s t,
+    table_ok_weak w = true /\ supers_not_var w = true /\ boxed_table w = true /\
+    plain_closed s = true /\ plain_closed t = true /\
+    arity_ok w s = true /\ arity_ok w t = true /\ boxed s = true /\ boxed t = true /\
+    is_subtype w fuel s t = Rf /\ SubA w p s t.
+Proof. exact complete_pf_refuted_bottom_super_lem. Qed.
+Print Assumptions is_subtype_complete_pf_refuted_bottom_super.
+
+Theorem is_subtype_complete_pf_refuted_prim_super :
+  exists w fuel p s t,
+    table_ok_weak w = true /\ supers_not_var w = true /\ no_bottom_supers w = true /\
+    plain_closed s = true /\ plain_closed t = true /\
+    arity_ok w s = true /\ arity_ok w t = true /\ boxed s = true /\ boxed t = true /\
+    is_subtype w fuel s t = Rf /\ SubA w p s t.
+Proof. exact complete_pf_refuted_prim_super_lem. Qed.
+Print Assumptions is_subtype_complete_pf_refuted_prim_super.
+
+(* unrestricted soundness is false: three shapes *)
+Theorem is_subtype_sound_refuted_nested_projection :
+  exists w s t, wf_ty w 20 s = true /\ wf_ty w 20 t = true /\ table_ok w = true /\
+                is_subtype w 40 s t = Rt /\ ~ SubA w [] s t.
+Proof. exact refuted_nested_projection_lem. Qed.
+Print Assumptions is_subtype_sound_refuted_nested_projection.
+
+Theorem is_subtype_sound_refuted_conflicting_projection :
+  exists w s t, wf_ty w 20 s = true /\ wf_ty w 20 t = true /\ table_ok w = true /\
+                is_subtype w 40 s t = Rt /\ ~ SubA w [] s t.
+Proof. exact refuted_conflicting_projection_lem. Qed.
+Print Assumptions is_subtype_sound_refuted_conflicting_projection.
+
+Theorem is_subtype_sound_refuted_type_variable :
+  exists w s t, wf_ty w 20 s = true /\ wf_ty w 20 t = true /\ table_ok w = true /\
+                is_subtype w 40 s t = Rt /\ ~ SubA w [] s t.
+Proof. exact refuted_type_variable_lem. Qed.
+Print Assumptions is_subtype_sound_refuted_type_variable.
+
+(* transitivity of the reference relation fails across a primitive built-in *)
+Theorem suba_trans_pf_refuted :
+  exists w p a b c,
+    table_ok w = true /\ plain_closed a = true /\ plain_closed b = true /\ plain_closed c = true /\
+    arity_ok w a = true /\ arity_ok w b = true /\ arity_ok w c = true /\
+    SubA w p a b /\ SubA w p b c /\ ~ SubA w p a c.
+Proof. exact suba_trans_pf_refuted_lem. Qed.
+Print Assumptions suba_trans_pf_refuted.
+
+(* the reference relation on the fragment *)
+Theorem suba_refl_pf : forall w p t,
+  table_ok w = true -> plain_closed t = true -> arity_ok w t = true -> SubA w p t t.
+Proof. exact suba_refl_pf_lem. Qed.
+Print Assumptions suba_refl_pf.
